@@ -241,6 +241,12 @@ w("recorder-looked-up-before-latch", ["C07", "C08"], "L5.emit/recording?/(*colum
   ("txn.go", "\ttxn.rangeWrite(func(commitID uint64, chunk commit.Chunk, fill bitmap.Bitmap) {", "\trecorder, recording := txn.owner.isSnapshotting()\n\ttxn.rangeWrite(func(commitID uint64, chunk commit.Chunk, fill bitmap.Bitmap) {"),
   ("txn.go", "\t\tif dst, ok := txn.owner.isSnapshotting(); ok {\n\t\t\tdst.Append(", "\t\tif recording {\n\t\t\trecorder.Append("))
 
+# ---- mutants of the mutation sample (mutation/) that the suite does not notice and that break a property:
+# converted to witnesses by the script in DESIGN.md §8 ("Mutation sample"), kept in mutation_witnesses.json
+_mw = os.path.join(os.path.dirname(os.path.abspath(__file__)), "mutation_witnesses.json")
+if os.path.exists(_mw):
+    W.extend(json.load(open(_mw)))
+
 os.makedirs(os.path.dirname(os.path.abspath(__file__)), exist_ok=True)
 json.dump(W, open(os.path.join(os.path.dirname(os.path.abspath(__file__)), "witnesses.json"), "w"), indent=1)
 print(len(W), "witnesses")
